@@ -38,16 +38,23 @@ structure Defects where
       the author of the REFERENCE (own reference: own-rows right) while the row that is re-dated and re-signed
       may be somebody else's -/
   refRightOnEdgeAuthor : Bool
+  /-- authorisation_service.rs validate_entity_mutation: the references a mutation REMOVES from a row (`field: null`,
+      or an entity field that gets another target) are covered by the right on the row alone — the own-rows right
+      when the row is the caller's — whoever signed those references; every peer judges the deletion record of a
+      reference on the author of the REFERENCE (`validate_edge_deletions`: all-rows right for somebody else's) -/
+  refRemovalRightOnRowAuthor : Bool
 deriving Repr, DecidableEq
 
 /-- what /repo does now. Fixed upstream (switch turned off here): sub-entities of an unchanged parent (c887d69),
     departing-room lookup (cfb7678), re-signing when no reference is removed (456214b), the guard on references
-    of authorisation entities (f1df104). Still on: incoming references of a deleted row, and the right of a
-    reference deletion judged on the reference's author. -/
-def Defects.asImplemented : Defects := ⟨false, false, false, false, true, true⟩
+    of authorisation entities (f1df104). Still on: incoming references of a deleted row; the right of a
+    reference deletion judged on the reference's author (findings/C01-C12-ref-deletion-right-on-source-row.patch);
+    the removal of somebody else's references by a mutation of an own row
+    (findings/C12-mutation-removes-foreign-reference.patch). -/
+def Defects.asImplemented : Defects := ⟨false, false, false, false, true, true, true⟩
 /-- /repo before the fixes that this check led to -/
-def Defects.beforeFixes : Defects := ⟨true, true, true, true, true, true⟩
-def Defects.none : Defects := ⟨false, false, false, false, false, false⟩
+def Defects.beforeFixes : Defects := ⟨true, true, true, true, true, true, true⟩
+def Defects.none : Defects := ⟨false, false, false, false, false, false, false⟩
 
 inductive MErr where
   | rejected | unknownRoom | unknownEntity | deleteNotAllowed
@@ -286,6 +293,10 @@ def validateChange (df : Defects) (rooms : List Room) (caller : Key) (now : Int)
       | .error e => .error e
       | .ok () =>
         if room.can caller c.entity now rt then
+          -- removing somebody else's reference needs the all-rows right (what the peers ask for its deletion record)
+          if !df.refRemovalRightOnRowAuthor && c.edgeDels.any (fun e => e.author != caller) &&
+              !room.can caller c.entity now .mutateAll then .error .rejected
+          else
           .ok (c.edgeDels.map fun e =>
             { room := rid, src := e.src, label := e.label, dest := e.dest, cdate := e.cdate, ddate := now,
               author := caller })
